@@ -217,7 +217,11 @@ func (b *MirroredBuffer) Commit(n int) int {
 		n = free
 	}
 	b.used += n
-	b.tail = (b.tail + n) & b.sizeMask
+	// n <= size, so a single subtraction wraps; a mask only works for power-of-two sizes.
+	b.tail += n
+	if b.tail >= b.size {
+		b.tail -= b.size
+	}
 	return n
 }
 
@@ -229,7 +233,10 @@ func (b *MirroredBuffer) Consume(n int) int {
 		return 0
 	}
 	b.used -= n
-	b.head = (b.head + n) & b.sizeMask
+	b.head += n
+	if b.head >= b.size {
+		b.head -= b.size
+	}
 	return n
 }
 
